@@ -363,10 +363,7 @@ def bfs_rule(index: RepoIndex, rep, rule: str) -> None:
                and src(w.sole_binding(nm)[1].func) in ('np.zeros', 'numpy.zeros')]
     guard = w.expand_formula(strip_iter(st.guard),
                              stop=[yo, xo, dy, dx, arr, dist, frontier] + visited)
-    try:
-        gexpr = ast.parse(show(guard), mode='eval').body
-    except SyntaxError:
-        raise AnalysisError('dijkstra: update guard outside the grammar')
+    from ..guards import truth_under
     bad = None
     n = 0
     for (H, W_), (y0, x0), (oy, ox), walk_ok, seen in itertools.product(
@@ -391,7 +388,26 @@ def bfs_rule(index: RepoIndex, rep, rule: str) -> None:
                            f'{a_}[{ytxt}, {xtxt}]'):
                     env[t_] = val
             env[frontier] = True
-            got = bool(ev(gexpr, env, call))
+            for a_ in (arr,) + tuple(visited):
+                val = walk_ok if a_ == arr else seen
+                for t_ in (f'{a_}[({src(idx.elts[0])}, {src(idx.elts[1])})]',
+                           f'{a_}[{src(st.target.slice)}]'):
+                    env[t_] = val
+
+            def atom_truth(a_e):
+                return bool(ev(w.expand(a_e, stop=[yo, xo, dy, dx, arr, dist, frontier]
+                                        + visited), env, call))
+
+            def other(leaf):
+                # `try: v = array[index] except IndexError`: numpy raises only beyond the far
+                # edges; an index in [-n, -1] silently wraps around
+                if leaf[0] == 'raises' and 'IndexError' in leaf[1]:
+                    return not (-H <= ny < H and -W_ <= nx < W_)
+                raise CannotEval(f'{leaf[0]} leaf')
+            t_ = truth_under(guard, atom_truth, other)
+            if t_ is None:
+                raise CannotEval(show(guard)[:80])
+            got = bool(t_)
         except CannotEval as ex:
             raise AnalysisError(f'dijkstra: update guard outside the grammar: {ex}')
         inside = 0 <= ny < H and 0 <= nx < W_
